@@ -150,8 +150,8 @@ def check(ctx):
     for ty in sorted(carriers):
         e = prog.fn(enc_key(ty))
         pe = Prov(e)
-        rc = codec.returned_collection(e, pe, "Array")
-        els = codec.vec_elements(e, pe, *rc) if rc else None
+        rc = codec.returned_operand(e, pe, "Array")
+        els = codec.array_elements(e, pe, *rc) if rc else None
         hit = [codec.emit_kind(prog, e, pe, el) for el in (els or [])]
         hit = [h for h in hit if h[1] == "protected"]
         n_slots += 1 if hit else 0
@@ -225,8 +225,8 @@ def check(ctx):
                 for e in r[1]:
                     for c in e["conds"]:
                         subj = c[0]
-                        if subj == ("discr", P):
-                            continue
+                        if subj == ("discr", P) or (c[1] == "variant" and subj == P):
+                            continue      # Some / None of the optional header itself, not its content
                         if any(s == P for s in subterms(subj)):
                             problems.append("a slot is chosen by inspecting protected-header parameter %d: %s" % (i, show(subj)[:80]))
             others = [e for e in r[1] if any(is_call(s) and ("CborSerializable" in s[1] and "to_vec" in s[1] or s[1].endswith("::to_cbor_value")) for s in subterms(e["term"]))]
